@@ -48,7 +48,7 @@ def _names_of(prog, adt):
     if adt in UNDISCR:
         return UNDISCR[adt]
     a = getattr(prog, "adts", {}).get(adt) if adt else None
-    if a and a.get("kind") == "enum" and 2 <= len(a["variants"]) <= 8:
+    if a and a.get("kind") == "enum" and 2 <= len(a["variants"]) <= 24:
         return {str(v["discr"]): v["name"] for v in a["variants"]}
     return None
 
@@ -96,6 +96,12 @@ def _val(env, op):
             return ("B", frozenset([str(c["int"])]))
         return None
     if "p" in p and p["p"] != ["*"]:
+        # `(x as Variant).0`: the payload of a one-field variant built on this path, when its own variant is known
+        pr = [e for e in p["p"] if e != "*"]
+        if len(pr) == 2 and isinstance(pr[0], dict) and "dc" in pr[0] and isinstance(pr[1], dict) and pr[1].get("f") == 0:
+            v = env.get(p["l"])
+            if v is not None and v[0] == "V" and len(v) > 2 and v[2] is not None:
+                return v[2]
         return None
     return env.get(p["l"])
 
@@ -138,7 +144,8 @@ def explore(prog, fn, state0, on_call, on_return=None, max_states=60000, _depth=
             k = rv["k"]
             env.pop("alias:%d" % l, None)
             if k == "agg" and rv.get("agg") == "adt" and _names_of(prog, rv.get("adt")) is not None:
-                val = ("V", frozenset([rv["variant"]]))
+                inner = _val(env, rv["ops"][0]) if len(rv.get("ops", [])) == 1 else None
+                val = ("V", frozenset([rv["variant"]]), inner) if (inner is not None and inner[0] == "V") else ("V", frozenset([rv["variant"]]))
             elif k == "use":
                 val = _val(env, rv["op"])
             elif k == "ref" and rv["place"].get("p", []) in ([], ["*"]):
@@ -149,6 +156,12 @@ def explore(prog, fn, state0, on_call, on_return=None, max_states=60000, _depth=
                 v = _val(env, rv["a"])
                 if v is not None and v[0] == "B":
                     val = ("B", frozenset("1" if x == "0" else "0" for x in v[1]))
+            elif k == "bin" and rv.get("op") in ("Eq", "Ne"):
+                # `a == b` / `a != b` on two known truth values (`left.is_true() != matches!(op, ScAnd)`)
+                va, vb = _val(env, rv["a"]), _val(env, rv["b"])
+                if va is not None and vb is not None and va[0] == "B" and vb[0] == "B" and len(va[1]) == 1 and len(vb[1]) == 1:
+                    same = next(iter(va[1])) == next(iter(vb[1]))
+                    val = ("B", frozenset(["1" if (same == (rv["op"] == "Eq")) else "0"]))
             elif k == "discr":
                 p = rv["place"]
                 if p.get("p", []) in ([], ["*"]):
@@ -187,7 +200,8 @@ def explore(prog, fn, state0, on_call, on_return=None, max_states=60000, _depth=
                         alts.append((st, ("B", frozenset(["1" if x in PRED[name] else "0"])), narrowed))
                 elif name.endswith("Try>::branch") and a0 is not None and a0[0] == "V":
                     m = {"Ok": "Continue", "Some": "Continue", "Err": "Break", "None": "Break"}
-                    alts = [(st, ("V", frozenset(m[x] for x in a0[1] if x in m)))]
+                    mapped = frozenset(m[x] for x in a0[1] if x in m)
+                    alts = [(st, ("V", mapped, a0[2]) if (len(a0) > 2 and mapped == frozenset(["Continue"])) else ("V", mapped))]
                 elif name in PASS and a0 is not None and a0[0] == "V":
                     m = PASS[name]
                     alts = [(st, ("V", frozenset((m[x] if m else x) for x in a0[1] if (m is None or x in m))))]
